@@ -66,7 +66,108 @@ let run_fs toks =
     Stdlib.Buffer.contents b
   | _ -> failwith "fs: missing device size"
 
-let handlers : (string * (string list -> string)) list ref = ref [ ("fs", run_fs) ]
+
+(* ---------- byte helpers ---------- *)
+let byte_table : coq_N array = Array.init 256 n_of_int
+
+let read_file path =
+  let ic = open_in_bin path in
+  let len = in_channel_length ic in
+  let s = really_input_string ic len in
+  close_in ic; s
+
+(* image file -> list of 4096-byte blocks (trailing partial block dropped) *)
+let image_of_string (s : string) : coq_N list list =
+  let nblocks = Stdlib.String.length s / 4096 in
+  let rec blk base i acc = if i < 0 then acc else blk base (i - 1) (byte_table.(Char.code s.[base + i]) :: acc) in
+  let rec go b acc = if b < 0 then acc else go (b - 1) (blk (b * 4096) 4095 [] :: acc) in
+  go (nblocks - 1) []
+
+let bytes_of_hex (h : string) : coq_N list =
+  if h = "-" then [] else
+  let n = Stdlib.String.length h / 2 in
+  let rec go i acc = if i < 0 then acc else
+      go (i - 1) (byte_table.(int_of_string ("0x" ^ Stdlib.String.sub h (2 * i) 2)) :: acc) in
+  go (n - 1) []
+
+let hex_of_bytes (l : coq_N list) : string =
+  if l = [] then "-" else
+  let b = Stdlib.Buffer.create 64 in
+  Stdlib.List.iter (fun x -> Stdlib.Buffer.add_string b (Stdlib.Printf.sprintf "%02x" (int_of_n x))) l;
+  Stdlib.Buffer.contents b
+
+let fnv_prime = 0x100000001b3L
+let fnv_init = 0xcbf29ce484222325L
+let fnv_step h (x : coq_N) = Int64.mul (Int64.logxor h (Int64.of_int (int_of_n x))) fnv_prime
+let fnv_bytes (l : coq_N list) = Stdlib.List.fold_left fnv_step fnv_init l
+let fnv_image (img : coq_N list list) =
+  Stdlib.List.fold_left (fun h b -> Stdlib.List.fold_left fnv_step h b) fnv_init img
+
+let opt k toks default =
+  let pre = k ^ "=" in
+  let n = Stdlib.String.length pre in
+  try
+    let t = Stdlib.List.find (fun t -> Stdlib.String.length t >= n && Stdlib.String.sub t 0 n = pre) toks in
+    Stdlib.String.sub t n (Stdlib.String.length t - n)
+  with Not_found -> default
+
+(* ---------- open: Recovery.open_image on an image file ---------- *)
+let rerr_str = function
+  | Recovery.EInvalidMetadata -> "invalid-metadata"
+  | Recovery.ECorrupt -> "corrupt"
+  | Recovery.EAmbiguous -> "ambiguous"
+  | Recovery.EInvalidDevice -> "invalid-device"
+  | Recovery.EFree e -> "free-" ^ ferr_str e
+  | Recovery.ERetire -> "retire"
+  | Recovery.EJournalExhausted -> "journal-exhausted"
+
+let open_result_string (version_of : Recovery.opened -> coq_N) (r : Recovery.opened Recovery.res) =
+  match r with
+  | Recovery.Panic -> "PANIC"
+  | Recovery.Rej e ->
+    (match e with
+     | Recovery.EInvalidMetadata | Recovery.EInvalidDevice -> "err " ^ rerr_str e ^ " unchanged=1"
+     | _ -> "err " ^ rerr_str e)
+  | Recovery.Ok o ->
+    let keys = Stdlib.Buffer.create 256 in
+    Stdlib.List.iter (fun (e : Recovery.entry) ->
+        let v = match Recovery.read_value o.Recovery.o_version o.Recovery.o_img e with
+          | Some bytes -> Stdlib.Printf.sprintf "%016Lx" (fnv_bytes bytes)
+          | None -> "err" in
+        Stdlib.Buffer.add_string keys
+          (Stdlib.Printf.sprintf "%s:%s:%s:%s:%s:%s;" (hex_of_bytes e.Recovery.e_key)
+             (string_of_n e.Recovery.e_ts) (string_of_n e.Recovery.e_exp)
+             (string_of_n e.Recovery.e_vlen) (string_of_n e.Recovery.e_sector) v))
+      o.Recovery.o_idx;
+    let f = o.Recovery.o_fs in
+    Stdlib.Printf.sprintf "ok v=%s n=%s mem=%s disk=%s free=%s,%s,%s amb=%s keys=%s post=%016Lx"
+      (string_of_n o.Recovery.o_version) (string_of_n o.Recovery.o_count)
+      (string_of_n o.Recovery.o_mem) (string_of_n o.Recovery.o_disk)
+      (string_of_n (FreeSpace.get_total_free f)) (string_of_n (FreeSpace.get_chunks f))
+      (string_of_n (FreeSpace.get_largest f))
+      (string_of_n o.Recovery.o_ambiguous)
+      (let k = Stdlib.Buffer.contents keys in if k = "" then "-" else k)
+      (fnv_image o.Recovery.o_img)
+
+(* open <path> ro=<0|1> allow=<0|1> ttl=<0|1> now=<n> recsize=<n> *)
+let run_open toks =
+  match toks with
+  | path :: rest ->
+    let raw = read_file path in
+    let img = image_of_string raw in
+    if Stdlib.String.length raw > 16 * 4096 && Stdlib.String.for_all (fun c -> c = '\000') raw then "fresh" else
+    let cfg = { Recovery.c_ro = (opt "ro" rest "0" = "1");
+                Recovery.c_allow_ambiguous = (opt "allow" rest "0" = "1");
+                Recovery.c_now = (if opt "ttl" rest "0" = "1" then Some (n_of_string (opt "now" rest "0")) else None);
+                Recovery.c_recsize = n_of_string (opt "recsize" rest "0") } in
+    open_result_string (fun o -> o.Recovery.o_version) (Recovery.open_image cfg img)
+  | _ -> failwith "open: missing path"
+
+let run_note _ = "note"
+
+let handlers : (string * (string list -> string)) list ref =
+  ref [ ("fs", run_fs); ("open", run_open); ("note", run_note) ]
+
 
 let () =
   (try
